@@ -31,7 +31,7 @@ func TestMain(m *testing.M) {
 	log.SetOutput(io.Discard)
 	kit.Main(m, "C19", "exploration",
 		"request sequences over {get-session valid (2 partitions), get-session with empty id, encrypt (empty / non-empty data), decrypt genuine (a record produced earlier on this or another stream for the partition), decrypt foreign-partition, decrypt corrupt, decrypt with empty record, empty request (no oneof), end of stream}: "+
-			"EXHAUSTIVE up to length 4 (thorough 5) through an in-memory AppEncryption_SessionServer against a sidecar built with the real NewAppEncryption (memory metastore, static KMS), rapid sequences up to length 40 on 1-8 concurrent streams sharing one AppEncryption, 2-16 streams whose get-sessions hit a FRESHLY built NewAppEncryption in parallel (every record they are given must decrypt on a later stream of its partition and on no other), a rapid state machine of streams opened / used / left open / ended among short complete streams of the same and other partitions with the sidecar's session cache off or on with 1-4 slots (a stream that completed get-session keeps round-tripping until the client ends it), 4-16 goroutines each running 5-30 complete streams for partitions the process has never seen, pairs of streams whose partition ids differ only in control characters / case / blanks (two partitions: each is refused the other's records), the sidecar's crypto policy built from generated values of the documented ASHERAH_* environment variables (each value lands in its own option), "+
+			"EXHAUSTIVE up to length 4 (thorough 5) through an in-memory AppEncryption_SessionServer against a sidecar built with the real NewAppEncryption (memory metastore, static KMS), rapid sequences up to length 40 on 1-8 concurrent streams sharing one AppEncryption, 2-16 streams whose get-sessions hit a FRESHLY built NewAppEncryption in parallel (every record they are given must decrypt on a later stream of its partition and on no other), a rapid state machine of streams opened / used / left open / ended among short complete streams of the same and other partitions with the sidecar's session cache off or on with 1-4 slots (a stream that completed get-session keeps round-tripping until the client ends it), 4-16 goroutines each running 5-30 complete streams for partitions the process has never seen, one stream carrying 140-700 operations, pairs of streams whose partition ids differ only in control characters / case / blanks (two partitions: each is refused the other's records), the sidecar's crypto policy built from generated values of the documented ASHERAH_* environment variables (each value lands in its own option), "+
 			"a second service built around a harness-owned SessionFactory for the SDK differential (records produced by the stream decrypt through an SDK session and vice versa), a sample through real gRPC over bufconn, and a native fuzz target (thorough). "+
 			"Oracle: a three-state protocol model (no session / get-session rejected / session open): exactly one Send per received request, in order; encrypt/decrypt before a successful get-session and a second get-session get error responses; with a session open encrypt returns a record that decrypts to the data, decrypt of a genuine record returns its payload, foreign / corrupt / empty records get error responses; Session returns nil at end of stream without panicking in every state. "+
 			"One evaluation = one sequence on one stream. Non-trivial = contains a rejected or repeated get-session or a decrypt of a non-genuine record followed by at least one more event; enumerated sequences are distinct by construction",
@@ -1070,5 +1070,42 @@ func TestOptionsFromEnvironment(t *testing.T) {
 			return map[string]any{"environment": env}
 		})
 		kit.Rec.Label("options-from-environment")
+	})
+}
+
+// TestLongLivedStream: one stream used for hundreds of operations (a connection-pooling client):
+// every request is answered, every record still round-trips.
+func TestLongLivedStream(t *testing.T) {
+	kit.Check(t, 6, 200, func(t *rapid.T) {
+		opts := &server.Options{ServiceName: "svc", ProductID: "prod", Metastore: "memory", KMS: "static", ExpireAfter: 24 * time.Hour, CheckInterval: time.Hour}
+		if rapid.Bool().Draw(t, "sessionCache") {
+			opts.EnableSessionCaching, opts.SessionCacheMaxSize, opts.SessionCacheDuration = true, 4, time.Hour
+		}
+		app := server.NewAppEncryption(opts)
+		n := rapid.IntRange(140, 700).Draw(t, "operations")
+		ls, msg := openStream(app, "long-lived")
+		bad := func(msg string) {
+			full := fmt.Sprintf("C19 violated [NewAppEncryption, one stream, %d operations]: %s", n, msg)
+			if strings.Contains(msg, "no response within") || strings.Contains(msg, "did not return") {
+				kit.Abort(full)
+			}
+			kit.Rec.Violation(msg)
+			t.Fatalf("%s", full)
+		}
+		if msg != "" {
+			bad(msg)
+		}
+		for i := 0; i < n/2; i++ {
+			if msg := ls.roundTrip(fmt.Sprint(i)); msg != "" {
+				bad(fmt.Sprintf("operation pair %d: %s", i, msg))
+			}
+		}
+		if msg := ls.end(); msg != "" {
+			bad(msg)
+		}
+		kit.Rec.Case(fmt.Sprintf("long|%d|%v", n, opts.EnableSessionCaching), true, func() any {
+			return map[string]any{"operations_on_one_stream": n, "session_cache": opts.EnableSessionCaching}
+		})
+		kit.Rec.Label("long-lived-stream")
 	})
 }
